@@ -332,6 +332,10 @@ func (s *StructType) IsValidJson(data json.RawMessage,
 	if err := attemptJsonUnmarshal(data, &m, "a map"); err != nil {
 		return err
 	}
+	if m == nil {
+		// null, with whitespace around it.
+		return nil
+	}
 	var errs ErrorList
 	for _, member := range s.Members {
 		t := lookup.Get(member.Tname)
@@ -358,6 +362,10 @@ func (s *StructType) FilterJson(data json.RawMessage, lookup *TypeLookup) (json.
 	var arr map[string]json.RawMessage
 	if err := json.Unmarshal(data, &arr); err != nil {
 		return data, true, err
+	}
+	if arr == nil {
+		// null, with whitespace around it.
+		return data, false, nil
 	}
 	var errs ErrorList
 	fatal := false
